@@ -19,6 +19,8 @@
    (including 0), and every loop budget [fuel]. *)
 From Compio.Model Require Import Base IoHelpers Compat.
 From Compio.Thm Require Import IoHelpersThm CompatThm.
+From Compio.Gen Require Frag.
+From Compio.Thm Require FragIoThm.
 
 (* ---------------------------------------------------------------------- *)
 (* C12_read_fifo: bytes handed to the caller ++ bytes still buffered ++ bytes
@@ -280,3 +282,12 @@ Example C12_known_read_limit_overshoot_refuted :
     length (buf_pending (rb (rh s'))) = 16 /\ length (rsrc (rh s')) = 14.
 Proof. vm_compute. eexists. repeat split; reflexivity. Qed.
 Print Assumptions C12_known_read_limit_overshoot_refuted.
+
+(* ---- source tie (translated from the Rust source on every run by tools/rs2v.py
+        into gen/Frag.v; an edit of the function changes the generated definition) ---- *)
+(* Buffer::need_flush (compio-io/src/buffer.rs) as the source has it now is the
+   threshold at which the adapters' write buffer reports WouldBlock / flushes *)
+Theorem C12_need_flush_is_source : forall b,
+  buf_need_flush b = Frag.buffer_need_flush (vcap (bvec b)) (vlen (bvec b)).
+Proof. exact FragIoThm.need_flush_tie. Qed.
+Print Assumptions C12_need_flush_is_source.
